@@ -375,3 +375,56 @@ Definition lrun (ops : list lop) : lstate := fold_left lstep ops (lmk 0 [] []).
 
 Fixpoint datas (q : list lthunk) : list nat :=
   match q with [] => [] | LData n :: r => n :: datas r | _ :: r => datas r end.
+
+(* ---- calls issued from INSIDE the serialization of a call (re-entrant send).
+   Application code gets control in the middle of Banana.produce -- Copyable.getStateToCopy, the body of a streaming slicer before
+   its first token, between two chunks, right after a pause has ended, as it finishes -- and may invoke callRemote there.
+   RootSlicer.send then finds a slicer stack deeper than the root (idle = false whatever the queue holds): the new call is only
+   put on the queue; the producer that is already running picks it up when its turn comes. *)
+Definition enqueue (i : nat * fate) (s : state) : state :=
+  mk (S (next_id s)) (q_put sendq_push {| cid := next_id s; stalls := fst i; cfate := snd i |} (sendq s)) (cur s) (wire s) (inq s)
+     (waiting s) (evq s) (trace s) (lost s) (dropped s) (early s) (cut s).
+
+Definition issue1 (s : state) (i : nat * fate) : state := issue (fst i) (snd i) s.
+Definition enqueue1 (s : state) (i : nat * fate) : state := enqueue i s.
+
+Definition with_cur (p : option (call * nat)) (s : state) : state :=
+  mk (next_id s) (sendq s) p (wire s) (inq s) (waiting s) (evq s) (trace s) (lost s) (dropped s) (early s) (cut s).
+Definition wrote (c : call) (s : state) : state :=
+  mk (next_id s) (sendq s) (cur s) (wire s ++ [c]) (inq s) (waiting s) (evq s) (trace s) (lost s) (dropped s) (early s) (cut s).
+
+(* produce() is running with call c on top of the stack; application code called from c's slicers issues `inner`; then c either
+   pauses on the next of the `left` Deferreds it still has to wait for, or is written out and the producer goes on with the queue *)
+Definition go_on (c : call) (left : nat) (inner : list (nat * fate)) (s : state) : state :=
+  let s' := fold_left enqueue1 inner s in
+  match left with
+  | 0 => pump (S (List.length (sendq s'))) (wrote c (with_cur None s'))
+  | S _ => with_cur (Some (c, left)) s'
+  end.
+
+(* callRemote whose argument's serialization issues `inner`: if the sender is idle the producer is woken inside this very
+   send(), takes the call off the queue (RootSlicer.__next__) and runs its slicers, hooks included, before send() returns; if
+   the sender is busy the call is only queued (its hooks run whenever it is serialized: release_nested / a later go_on) *)
+Definition issue_nested (st : nat) (f : fate) (inner : list (nat * fate)) (s : state) : state :=
+  let c := {| cid := next_id s; stalls := st; cfate := f |} in
+  let q := q_put sendq_push c (sendq s) in
+  let idle := is_none (cur s) && is_nil (if send_idle_before_enqueue then sendq s else q) in
+  let s1 := mk (S (next_id s)) q (cur s) (wire s) (inq s) (waiting s) (evq s) (trace s) (lost s) (dropped s) (early s) (cut s) in
+  if idle then
+    match q_take sendq_pop q with
+    | Some (c0, rest) =>
+      go_on c0 (stalls c0) inner (mk (S (next_id s)) rest None (wire s) (inq s) (waiting s) (evq s) (trace s) (lost s) (dropped s) (early s) (cut s))
+    | None => s1
+    end
+  else s1.
+
+(* the Deferred on which produce() is paused fires, and the code that runs next inside the slicer issues `inner` before the call
+   pauses again or ends *)
+Definition release_nested (inner : list (nat * fate)) (s : state) : state :=
+  match cur s with
+  | None => s
+  | Some (c, S (S m)) => go_on c (S m) inner s
+  | Some (c, _) => go_on c 0 inner s
+  end.
+
+Definition issue_ops (inner : list (nat * fate)) : list op := map (fun i => Issue (fst i) (snd i)) inner.
